@@ -813,6 +813,13 @@ def check_cfg_linearity(
                 # the second, more fine-grained, analysis based on places.
                 if x not in live_before_bb and x not in scope.vars:
                     continue
+                # Places of the enclosing scope whose id has been reassigned in this BB
+                # are shadowed: `scope.used(x)` and `scope[x]` below would refer to the
+                # new place. If the old one was live at the start of this BB, then it
+                # has been used before the reassignment; otherwise the predecessors
+                # report it.
+                if x in scope.vars and scope.vars[x] is not leaf:
+                    continue
                 used_later = all(x in live_before[succ] for succ in bb.successors)
                 if not leaf.ty.droppable and not scope.used(x) and not used_later:
                     err = PlaceNotUsedError(scope[x].defined_at, leaf)
